@@ -79,12 +79,15 @@ Model/FloatCast.vos Model/FloatCast.vok Model/FloatCast.required_vos: Model/Floa
 Run/RunC14.vo Run/RunC14.glob Run/RunC14.v.beautified Run/RunC14.required_vo: Run/RunC14.v Base.vo Prim.vo Model/Core.vo Model/Shift.vo Model/AddSub.vo Model/Bits.vo Model/FloatCast.vo Run/RunBase.vo
 Run/RunC14.vio: Run/RunC14.v Base.vio Prim.vio Model/Core.vio Model/Shift.vio Model/AddSub.vio Model/Bits.vio Model/FloatCast.vio Run/RunBase.vio
 Run/RunC14.vos Run/RunC14.vok Run/RunC14.required_vos: Run/RunC14.v Base.vos Prim.vos Model/Core.vos Model/Shift.vos Model/AddSub.vos Model/Bits.vos Model/FloatCast.vos Run/RunBase.vos
-Properties/C14.vo Properties/C14.glob Properties/C14.v.beautified Properties/C14.required_vo: Properties/C14.v Base.vo Prim.vo Model/Digit.vo Model/Core.vo Model/Shift.vo Model/AddSub.vo Model/Bits.vo Model/FloatCast.vo Proofs/FloatCastDeps.vo Proofs/FloatCast.vo
-Properties/C14.vio: Properties/C14.v Base.vio Prim.vio Model/Digit.vio Model/Core.vio Model/Shift.vio Model/AddSub.vio Model/Bits.vio Model/FloatCast.vio Proofs/FloatCastDeps.vio Proofs/FloatCast.vio
-Properties/C14.vos Properties/C14.vok Properties/C14.required_vos: Properties/C14.v Base.vos Prim.vos Model/Digit.vos Model/Core.vos Model/Shift.vos Model/AddSub.vos Model/Bits.vos Model/FloatCast.vos Proofs/FloatCastDeps.vos Proofs/FloatCast.vos
+Properties/C14.vo Properties/C14.glob Properties/C14.v.beautified Properties/C14.required_vo: Properties/C14.v Base.vo Prim.vo Model/Digit.vo Model/Core.vo Model/Shift.vo Model/AddSub.vo Model/Bits.vo Model/FloatCast.vo Proofs/FloatCastDeps.vo Proofs/FloatCast.vo Proofs/FloatCastTo.vo
+Properties/C14.vio: Properties/C14.v Base.vio Prim.vio Model/Digit.vio Model/Core.vio Model/Shift.vio Model/AddSub.vio Model/Bits.vio Model/FloatCast.vio Proofs/FloatCastDeps.vio Proofs/FloatCast.vio Proofs/FloatCastTo.vio
+Properties/C14.vos Properties/C14.vok Properties/C14.required_vos: Properties/C14.v Base.vos Prim.vos Model/Digit.vos Model/Core.vos Model/Shift.vos Model/AddSub.vos Model/Bits.vos Model/FloatCast.vos Proofs/FloatCastDeps.vos Proofs/FloatCast.vos Proofs/FloatCastTo.vos
 Proofs/FloatCastDeps.vo Proofs/FloatCastDeps.glob Proofs/FloatCastDeps.v.beautified Proofs/FloatCastDeps.required_vo: Proofs/FloatCastDeps.v Base.vo Prim.vo Model/Digit.vo Model/Core.vo Model/Shift.vo Model/AddSub.vo Model/Bits.vo
 Proofs/FloatCastDeps.vio: Proofs/FloatCastDeps.v Base.vio Prim.vio Model/Digit.vio Model/Core.vio Model/Shift.vio Model/AddSub.vio Model/Bits.vio
 Proofs/FloatCastDeps.vos Proofs/FloatCastDeps.vok Proofs/FloatCastDeps.required_vos: Proofs/FloatCastDeps.v Base.vos Prim.vos Model/Digit.vos Model/Core.vos Model/Shift.vos Model/AddSub.vos Model/Bits.vos
 Proofs/FloatCast.vo Proofs/FloatCast.glob Proofs/FloatCast.v.beautified Proofs/FloatCast.required_vo: Proofs/FloatCast.v Base.vo Prim.vo Model/Digit.vo Model/Core.vo Model/Shift.vo Model/AddSub.vo Model/Bits.vo Model/FloatCast.vo Proofs/FloatCastDeps.vo
 Proofs/FloatCast.vio: Proofs/FloatCast.v Base.vio Prim.vio Model/Digit.vio Model/Core.vio Model/Shift.vio Model/AddSub.vio Model/Bits.vio Model/FloatCast.vio Proofs/FloatCastDeps.vio
 Proofs/FloatCast.vos Proofs/FloatCast.vok Proofs/FloatCast.required_vos: Proofs/FloatCast.v Base.vos Prim.vos Model/Digit.vos Model/Core.vos Model/Shift.vos Model/AddSub.vos Model/Bits.vos Model/FloatCast.vos Proofs/FloatCastDeps.vos
+Proofs/FloatCastTo.vo Proofs/FloatCastTo.glob Proofs/FloatCastTo.v.beautified Proofs/FloatCastTo.required_vo: Proofs/FloatCastTo.v Base.vo Prim.vo Model/Digit.vo Model/Core.vo Model/Shift.vo Model/AddSub.vo Model/Bits.vo Model/FloatCast.vo Proofs/FloatCastDeps.vo Proofs/FloatCast.vo
+Proofs/FloatCastTo.vio: Proofs/FloatCastTo.v Base.vio Prim.vio Model/Digit.vio Model/Core.vio Model/Shift.vio Model/AddSub.vio Model/Bits.vio Model/FloatCast.vio Proofs/FloatCastDeps.vio Proofs/FloatCast.vio
+Proofs/FloatCastTo.vos Proofs/FloatCastTo.vok Proofs/FloatCastTo.required_vos: Proofs/FloatCastTo.v Base.vos Prim.vos Model/Digit.vos Model/Core.vos Model/Shift.vos Model/AddSub.vos Model/Bits.vos Model/FloatCast.vos Proofs/FloatCastDeps.vos Proofs/FloatCast.vos
